@@ -251,8 +251,11 @@ def _materialize_rml_rule(rml_rule, rml_df, fnml_df, config, data=None, parent_j
         data = _materialize_rml_rule_terms(data, rml_rule, fnml_df, config)
 
     elif rml_rule['subject_map_type'] == RML_QUOTED_TRIPLES_MAP or rml_rule['object_map_type'] == RML_QUOTED_TRIPLES_MAP:
-        if data is None:
+        if data is None and references:
             data = _get_data(config, rml_rule, references, python_source)
+        elif data is None:
+            # no reference at all (every quoted triples map is constant-valued): a dataframe with 1 row
+            data = pd.DataFrame({'placeholder': ['placeholder']})
 
         if rml_rule['subject_map_type'] == RML_QUOTED_TRIPLES_MAP:
             if pd.notna(rml_rule['subject_join_conditions']):
